@@ -8,7 +8,7 @@ use serde::{Deserialize, Serialize};
 use serde_json::json;
 use std::time::Duration;
 
-pub const RULE: &str = "the spin options and their ranges are read from the engine's own 'uci' answer (name, min, max - not hard-coded). A session = 2-12 steps over {setoption <spin option> value v with v in {min, min+1, default, max-1, max, interior values}, isready, ucinewgame, position <generated game>, go depth 2-4 (also with clocks after Move Overhead was set)} in any order, before and between searches, then quit. Oracle on the shipped binary: every isready is answered by readyok; every go by exactly one bestmove that is legal in the position (reference model); nothing that looks like the panic hook's output; after quit the process exits with status 0. A 'long_sessions' part sets Hash (mostly to its smallest advertised value) and runs 256-300 shallow searches in a row. In-process twin (checked build): tt.resize(v) for boundary and interior sizes followed by a search. Non-trivial = session that searches after setting Hash to a boundary value or after two different Hash values; distinct by session.";
+pub const RULE: &str = "the spin options and their ranges are read from the engine's own 'uci' answer (name, min, max - not hard-coded). A session = 2-12 steps over {setoption <spin option> value v with v in {min, min+1, default, max-1, max, interior values}, isready, ucinewgame, position <generated game>, go depth 2-4 (also with clocks after Move Overhead was set), go movetime 1100-1400 (a search longer than a second)} in any order, before and between searches, then quit. Oracle on the shipped binary: every isready is answered by readyok; every go by exactly one bestmove that is legal in the position (reference model); nothing that looks like the panic hook's output; after quit the process exits with status 0. A 'long_sessions' part sets Hash (mostly to its smallest advertised value) and runs 256-300 shallow searches in a row. In-process twin (checked build): tt.resize(v) for boundary and interior sizes followed by a search. Non-trivial = session that searches after setting Hash to a boundary value or after two different Hash values; distinct by session.";
 
 #[derive(Serialize, Deserialize, Clone, Debug, PartialEq)]
 pub enum Step {
@@ -17,6 +17,8 @@ pub enum Step {
     NewGame,
     Position { fen: String, moves: Vec<String> },
     Go { depth: u8, clocks: Option<(u32, u32)> },
+    /// a search that lasts longer than a second (fixed move time)
+    GoMoveTime { ms: u32 },
 }
 
 #[derive(Serialize, Deserialize, Clone, Debug)]
@@ -88,7 +90,11 @@ fn from_tape(data: &[u16], spins: &[Spin]) -> Vec<Step> {
                     if t.pick(3) == 0 {
                         steps.push(Step::IsReady);
                     }
-                    steps.push(Step::Go { depth: 2 + t.pick(3) as u8, clocks: None });
+                    if t.pick(10) == 0 {
+                        steps.push(Step::GoMoveTime { ms: 1100 + t.pick(300) as u32 });
+                    } else {
+                        steps.push(Step::Go { depth: 2 + t.pick(3) as u8, clocks: None });
+                    }
                 }
             }
             3 => steps.push(if t.pick(2) == 0 { Step::IsReady } else { Step::NewGame }),
@@ -166,10 +172,12 @@ fn run_session(steps: &[Step], spins: &[Spin], st: &mut Stats) -> Result<(), Fai
                 let cmd = if moves.is_empty() { format!("position fen {fen}") } else { format!("position fen {fen} moves {}", moves.join(" ")) };
                 e.send(&cmd).map_err(|x| fail(&e, "option:engine_died", x))?;
             }
-            Step::Go { depth, clocks } => {
-                let cmd = match clocks {
-                    Some((w, b)) => format!("go wtime {w} btime {b} depth {depth}"),
-                    None => format!("go depth {depth}"),
+            Step::Go { .. } | Step::GoMoveTime { .. } => {
+                let cmd = match step {
+                    Step::Go { depth, clocks: Some((w, b)) } => format!("go wtime {w} btime {b} depth {depth}"),
+                    Step::Go { depth, clocks: None } => format!("go depth {depth}"),
+                    Step::GoMoveTime { ms } => format!("go movetime {ms}"),
+                    _ => unreachable!(),
                 };
                 e.send(&cmd).map_err(|x| fail(&e, "option:engine_died", x))?;
                 loop {
@@ -256,9 +264,9 @@ pub fn run(run: &mut Run) -> &'static str {
         Err(e) => infra(&format!("cannot read the engine's options: {e}")),
     };
     run.extra.insert("advertised_spin_options".into(), json!(spins.iter().map(|s| json!({"name": s.name, "default": s.default, "min": s.min, "max": s.max})).collect::<Vec<_>>()));
-    let cases = tier.pick(160, 3_000);
+    let cases = tier.pick(112, 3_000);
     run.watchdog_secs = Some(600);
-    run.workers = 6; // 1024 MB tables: keep memory bounded
+    run.workers = 8; // 1024 MB tables: keep memory bounded
     let spins_ref = &spins;
     let strat = tape(12..120).prop_map(Case::Tape);
     run.proptest_part("sessions", RULE, strat, cases, move |c: &Case, st: &mut Stats| match c {
@@ -290,6 +298,7 @@ pub fn run(run: &mut Run) -> &'static str {
                     }
                     steps.push(Step::Go { depth: 1 + (i % 2) as u8, clocks: None });
                 }
+                steps.push(Step::GoMoveTime { ms: 1100 });
                 steps.push(Step::IsReady);
                 steps
             }
